@@ -706,6 +706,56 @@ def ser_check(prop, tier, seed):
                             "harness state builder and projection", "strings <= 2 over 12 character classes enumerated exhaustively; longer strings and full Unicode sampled"]}
 
 
+INTERN_CFG = """SPECIFICATION Spec
+CONSTANTS
+  Strings = {{"a", "b", "c"}}
+  W = 3
+  MaxOps = {maxops}
+INVARIANTS L1Injective Stable L2InjectiveWhileSmall L2Breaks
+CHECK_DEADLOCK FALSE
+"""
+
+
+def intern_check(prop, tier, seed):
+    """C08: interning tables."""
+    quick = tier == "quick"
+    exe = vlib.build_harness()
+    d = vlib.workdir("intern")
+    cfgname = write_cfg("gen_C08_mc.cfg", INTERN_CFG.format(maxops=6 if quick else 8))
+    r_mc = mc("MCIntern.tla", cfgname, workers=8, timeout=1800, tag="C08_mc")
+    os.remove(os.path.join(vlib.SPEC, cfgname))
+    tp = os.path.join(d, "trace.ndjson")
+    episodes = 150 if quick else 3000
+    vlib.run_harness(exe, ["intern-drive", "--seed", str(seed), "--episodes", str(episodes), "--len", "120", "--big", "70000", "--out", tp], timeout=1200)
+    v = vlib.validate_trace(tp, module="TraceIntern.tla", cfg="TraceIntern.cfg", nshards=12, timeout=1800, tag="C08")
+    violations, known = [], {}
+    for rj in v["rejects"]:
+        if rj["known"]:
+            known.setdefault(rj["known"], 0)
+            known[rj["known"]] += 1
+            continue
+        if len(violations) < 25:
+            # the episode up to the rejected event is the replay
+            start = rj["line"]
+            while start > 0 and '"op":"reset"' not in v["lines"][start]:
+                start -= 1
+            sc = {"kind": "intern", "events": [json.loads(l) for l in v["lines"][start: rj["line"] + 1]][-50:], "seed": seed}
+            violations.append(vlib.save_replay(prop, sc, rj))
+            log(f"  reject: {json.dumps(rj['detail'])[:300]}")
+    kf = {f["id"]: f for f in vlib.load_known()}
+    known_lines = [f"{kid} ({cnt} events): {kf.get(kid, {}).get('what', '')}" for kid, cnt in sorted(known.items())]
+    kinds = {(json.loads(l)["op"], json.loads(l)["tbl"], json.loads(l)["has"]) for l in v["lines"][:5000]}
+    cov = {"states": r_mc["distinct"] + v["distinct"], "transitions": r_mc["generated"] + v["states"],
+           "traces_validated_against_impl": episodes, "evaluations": v["events"], "distinct_nontrivial": len(kinds),
+           "rule": "one event per add_* / lookup / bulk registration / clone / parse / html5 call on the real crate; TLC replays L1 and requires an injective class<->id correspondence, exact lookups and exact read-back; distinct = (operation, table, found) classes",
+           "samples": [json.loads(l) for l in v["lines"][1:3]], "exhaustive": False, "bulk_registrations_per_table": 70000}
+    import shutil
+    shutil.rmtree(d, ignore_errors=True)
+    return {"violations": violations, "known": known_lines, "coverage": cov,
+            "assumptions": ["TLC 1.8 and the Json/IOUtils community modules", "ids are compared with == by the harness (first-seen class numbering)",
+                            "bulk ranges are registered in order by the driver and summarised (count of fresh ids, contiguity, read-back) so that >2^16 registrations stay cheap to validate"]}
+
+
 CHECKS = {
     "C04": lambda p, t, s: forest_check(p, t, s),
     "C05": lambda p, t, s: forest_check(p, t, s),
@@ -717,6 +767,7 @@ CHECKS = {
     "C03": parser_check,
     "C17": parser_check,
     "C07": observer_check,
+    "C08": intern_check,
     "C09": observer_check,
     "C13": observer_check,
 }
